@@ -10,7 +10,7 @@ From Coq Require Import List Arith Bool.
 From TT Require Import Base.HeapTypes.
 Import ListNotations.
 
-Inductive exn := ERuntime | EValue | EType | EAttr | EFuel.
+Inductive exn := ERuntime | EValue | EType | EAttr | EIndex | EFuel.
 Inductive outcome := OOk | ORaised (e : exn).
 Inductive res := ROk (h : heap) | RErr (h : heap) (e : exn).
 Definition bind (r : res) (f : heap -> res) : res := match r with ROk h => f h | RErr h e => RErr h e end.
@@ -145,6 +145,13 @@ Fixpoint dfs (fuel : nat) (h : heap) (i : nat) : option (list nat) :=
     end
   end.
 
+(* ContentElement.root(): `while root.parent() is not None: root = root.parent()` *)
+Fixpoint root_walk (fuel : nat) (h : heap) (i : nat) : option nat :=
+  match n_parent (nd h i) with
+  | None => Some i
+  | Some p => match fuel with O => None | S k => root_walk k h p end
+  end.
+
 (* ------------------------------------------------------------------------------------------
    ContentElement.push_child and the per-class guards                                         *)
 Definition ce_push_child (h : heap) (s c : nat) : res :=
@@ -175,12 +182,8 @@ Definition push_guard (h : heap) (s c : nat) : option exn :=
   | KRb | KRt | KRp => if kind_in kc [KSpan] then None else Some EType
   | KRbc => if kind_in kc [KRb] then None else Some EType
   | KRtc =>
-    let fk := okind h (n_first (nd h s)) in
-    let lk := okind h (n_last (nd h s)) in
-    let ok := if okind_is KRt fk then kind_in kc [KRt]
-              else if okind_is KRp fk && okind_is KRp lk then false
-              else kind_in kc [KRt; KRp] in
-    if ok then None else Some EValue
+    (* `if isinstance(self.first_child(), Rp) or not isinstance(child, Rt): raise ValueError` *)
+    if okind_is KRp (okind h (n_first (nd h s))) || negb (kind_in kc [KRt]) then Some EValue else None
   | KText => Some ERuntime
   | KRegion => Some ERuntime
   end.
@@ -224,15 +227,30 @@ Definition rtc_list_ok (ks : list kind) : bool :=
                | _ => ks
                end in
   forallb (kind_eqb KRt) inner.
+(* `try: for child in children: super().push_child(child)  except Exception: <undo>; raise` *)
+Definition push_all_or_undo (h : heap) (s : nat) (cs : list nat) (undo : heap -> res) : res :=
+  match each (fun h' c => ce_push_child h' s c) cs h with
+  | ROk h' => ROk h'
+  | RErr h' e => match undo h' with ROk h'' => RErr h'' e | RErr h'' e' => RErr h'' e' end
+  end.
 Definition push_children (h : heap) (s : nat) (cs : list nat) : res :=
   match kind_of h s with
   | KRuby =>
     if is_some (n_first (nd h s)) then RErr h ERuntime
     else if negb (existsb (kinds_eqb (map (kind_of h) cs)) ruby_patterns) then RErr h EValue
-    else each (fun h' c => ce_push_child h' s c) cs h
+    else push_all_or_undo h s cs (fun h' => remove_children h' s)
   | KRtc =>
     if negb (rtc_list_ok (map (kind_of h) cs)) then RErr h EValue
-    else each (fun h' c => ce_push_child h' s c) cs h
+    else if is_some (n_first (nd h s)) then RErr h ERuntime
+    else match kids h s with                                   (* count = len(self) *)
+         | None => RErr h EFuel
+         | Some k0 =>
+           push_all_or_undo h s cs
+             (fun h' => match kids h' s with                   (* for child in list(self)[count:]: super().remove_child(child) *)
+                        | None => RErr h' EFuel
+                        | Some k1 => each (fun h'' c => ce_remove_child h'' s c) (skipn (length k0) k1) h'
+                        end)
+         end
   | _ => each (fun h' c => push_child h' s c) cs h
   end.
 
@@ -277,6 +295,13 @@ Definition set_space_m (h : heap) (s : nat) (v : bool) : res :=
   | KText => if v then RErr h ERuntime else ROk h
   | _ => ROk (updn h s (set_space v))
   end.
+(* Text.set_text: the argument is a string of the pool (numbered) or not a string; other classes have
+   no such method *)
+Definition set_text_m (h : heap) (s : nat) (v : option nat) : res :=
+  match kind_of h s with
+  | KText => match v with Some k => ROk (updn h s (set_text k)) | None => RErr h EType end
+  | _ => RErr h EAttr
+  end.
 
 (* the style_prop argument: a member of StyleProperties.ALL or something else *)
 Inductive pref := PValid (p : prop) | PInvalid.
@@ -313,18 +338,49 @@ Definition add_anim_m (h : heap) (s : nat) (p : pref) (v : option sval) : res :=
     | VTrue => ROk (updn h s (fun n => set_anims (n_anims n ++ [(p, v)]) n))
     end
   end.
+(* remove_animation_step(step): `self._sets.remove(step)` removes the first equal step, ValueError if none *)
+Definition pv_eqb (a b : prop * sval) : bool := if pv_eq_dec a b then true else false.
+Fixpoint list_remove (x : prop * sval) (l : list (prop * sval)) : option (list (prop * sval)) :=
+  match l with
+  | [] => None
+  | y :: t => if pv_eqb y x then Some t else option_map (cons y) (list_remove x t)
+  end.
+Definition remove_anim_m (h : heap) (s : nat) (p : prop) (v : sval) : res :=
+  match list_remove (p, v) (n_anims (nd h s)) with
+  | None => RErr h EValue
+  | Some l => ROk (updn h s (set_anims l))
+  end.
 
-(* ContentDocument.has_region(region.get_id()) *)
-Definition has_region (h : heap) (d : nat) (id : option nat) : bool :=
-  match id with None => false | Some k => dict_has Nat.eqb (d_regions (dc h d)) k end.
+(* ContentDocument.get_region(region.get_id()) *)
+Definition get_region (h : heap) (d : nat) (id : option nat) : option nat :=
+  match id with None => None | Some k => dict_get Nat.eqb (d_regions (dc h d)) k end.
+(* Region._users is a set; the harness dumps it in ascending order *)
+Fixpoint uins (x : nat) (l : list nat) : list nat :=
+  match l with
+  | [] => [x]
+  | y :: t => if x <? y then x :: l else if x =? y then l else y :: uins x t
+  end.
+Definition udel (x : nat) (l : list nat) : list nat := filter (fun y => negb (y =? x)) l.
+(* the end of ContentElement.set_region: `self._region._users.discard(self)`, `region._users.add(self)`,
+   `self._region = region` *)
+Definition link_region (h : heap) (s : nat) (r : option nat) : heap :=
+  let h1 := match n_region (nd h s) with
+            | Some r0 => updn h r0 (fun n => set_users (udel s (n_users n)) n)
+            | None => h
+            end in
+  let h2 := match r with
+            | Some rr => updn h1 rr (fun n => set_users (uins s (n_users n)) n)
+            | None => h1
+            end in
+  updn h2 s (set_region r).
 Definition set_region_m (h : heap) (s : nat) (r : option nat) : res :=
   let generic :=
     match r with
-    | None => ROk (updn h s (set_region None))
+    | None => ROk (link_region h s None)
     | Some rr =>
       match n_doc (nd h s) with
       | None => RErr h EValue
-      | Some d => if has_region h d (n_id (nd h rr)) then ROk (updn h s (set_region r)) else RErr h EValue
+      | Some d => if onat_eqb (get_region h d (n_id (nd h rr))) (Some rr) then ROk (link_region h s r) else RErr h EValue
       end
     end in
   match kind_of h s with
@@ -334,52 +390,44 @@ Definition set_region_m (h : heap) (s : nat) (r : option nat) : res :=
   | _ => generic
   end.
 
-(* ContentElement.set_doc *)
-Fixpoint set_doc_rec (fuel : nat) (h : heap) (s : nat) (d : option nat) : res :=
-  match fuel with
-  | O => RErr h EFuel
-  | S k =>
-    (match d with
-     | None => if is_some (n_parent (nd h s)) then RErr h ERuntime else set_region_m h s None
-     | Some _ => match dfs (S k) h s with
-                 | None => RErr h EFuel
-                 | Some l => if existsb (fun e => is_some (n_doc (nd h e))) l then RErr h ERuntime else ROk h
-                 end
-     end) >>= fun h1 =>
-    let h2 := updn h1 s (HeapTypes.set_doc d) in
-    match kids h2 s with
-    | None => RErr h2 EFuel
-    | Some cs => each (fun h' c => set_doc_rec k h' c d) cs h2
-    end
+(* ContentElement.set_doc: checks, then one pass over dfs_iterator() that clears the regions (when
+   detaching) and stores the document.  The pass only writes _doc, _region and _users, so the
+   elements it visits are those enumerated before it starts. *)
+Definition set_doc_m (h : heap) (s : nat) (d : option nat) : res :=
+  if is_some (n_parent (nd h s)) then RErr h ERuntime
+  else match dfs (S (nnodes h)) h s with
+  | None => RErr h EFuel
+  | Some l =>
+    if is_some d && existsb (fun e => is_some (n_doc (nd h e))) l then RErr h ERuntime
+    else each (fun h' e =>
+                 (if negb (is_some d) && is_some (n_region (nd h' e)) then set_region_m h' e None else ROk h')
+                 >>= fun h2 => ROk (updn h2 e (HeapTypes.set_doc d))) l h
   end.
-Definition set_doc_m (h : heap) (s : nat) (d : option nat) : res := set_doc_rec (S (nnodes h)) h s d.
 
 (* ------------------------------------------------------------------------------------------
    ContentDocument                                                                            *)
+(* `for e in list(region._users): if e.get_doc() is self: e.set_region(to)` *)
+Definition retarget (d : nat) (to : option nat) (h' : heap) (e : nat) : res :=
+  if onat_eqb (n_doc (nd h' e)) (Some d) then set_region_m h' e to else ROk h'.
 Definition put_region (h : heap) (d r : nat) : res :=
   if negb (kind_eqb (kind_of h r) KRegion) then RErr h EType
   else if negb (onat_eqb (n_doc (nd h r)) (Some d)) then RErr h EValue
   else match n_id (nd h r) with
        | None => RErr h EFuel      (* a Region always has an id; not reachable *)
-       | Some k => ROk (updd h d (fun x => set_regions (dict_set Nat.eqb (d_regions x) k r) x))
+       | Some k =>
+         let replaced := dict_get Nat.eqb (d_regions (dc h d)) k in
+         let h1 := updd h d (fun x => set_regions (dict_set Nat.eqb (d_regions x) k r) x) in
+         match replaced with
+         | None => ROk h1
+         | Some r0 => if Nat.eqb r0 r then ROk h1 else each (retarget d (Some r)) (n_users (nd h1 r0)) h1
+         end
        end.
 Definition remove_region (h : heap) (d id : nat) : res :=
   match dict_get Nat.eqb (d_regions (dc h d)) id with
   | None => ROk h
-  | Some _ =>
-    (match d_body (dc h d) with
-     | None => ROk h
-     | Some b =>
-       match dfs (S (nnodes h)) h b with
-       | None => RErr h EFuel
-       | Some l =>
-         each (fun h' e =>
-                 match n_region (nd h' e) with
-                 | None => ROk h'
-                 | Some r => if onat_eqb (n_id (nd h' r)) (Some id) then set_region_m h' e None else ROk h'
-                 end) l h
-       end
-     end) >>= fun h1 => ROk (updd h1 d (fun x => set_regions (dict_del Nat.eqb (d_regions x) id) x))
+  | Some r0 =>
+    each (retarget d None) (n_users (nd h r0)) h
+    >>= fun h1 => ROk (updd h1 d (fun x => set_regions (dict_del Nat.eqb (d_regions x) id) x))
   end.
 Definition set_body_m (h : heap) (d : nat) (b : option nat) : res :=
   match b with
@@ -395,6 +443,46 @@ Definition put_initial (h : heap) (d : nat) (p : pref) (v : option sval) : res :
   | inl x => ROk (updd h d (set_initials x))
   | inr e => RErr h e
   end.
+(* remove_initial_value(style_prop): `self._initial_values.pop(style_prop, None)`, any key *)
+Definition remove_initial (h : heap) (d : nat) (p : pref) : res :=
+  match p with
+  | PInvalid => ROk h
+  | PValid p => ROk (updd h d (fun x => set_initials (dict_del prop_eqb (d_initials x) p) x))
+  end.
+
+(* Document parameters.  The argument: None, an instance of the expected class (numbered), or an
+   object of another class *)
+Inductive darg := DNone | DVal (k : nat) | DBad.
+Definition set_active_m (h : heap) (d : nat) (v : darg) : res :=
+  match v with
+  | DNone => ROk (updd h d (set_active None))
+  | DVal k => ROk (updd h d (set_active (Some k)))
+  | DBad => RErr h EType
+  end.
+Definition set_dar_m (h : heap) (d : nat) (v : darg) : res :=
+  match v with
+  | DNone => ROk (updd h d (set_dar None))
+  | DVal k => ROk (updd h d (set_dar (Some k)))
+  | DBad => RErr h EType
+  end.
+Definition set_cell_m (h : heap) (d : nat) (v : darg) : res :=
+  match v with DVal k => ROk (updd h d (set_cell k)) | _ => RErr h EType end.
+Definition set_px_m (h : heap) (d : nat) (v : darg) : res :=
+  match v with DVal k => ROk (updd h d (set_px k)) | _ => RErr h EType end.
+Definition set_dlang_m (h : heap) (d : nat) (v : darg) : res :=
+  match v with DVal k => ROk (updd h d (set_dlang k)) | _ => RErr h EType end.
+Definition darg_of (o : option nat) : darg := match o with None => DNone | Some k => DVal k end.
+(* Document.copy_to then ContentDocument.copy_to *)
+Definition doc_copy_to (h : heap) (d dst : nat) : res :=
+  (if Nat.eqb d dst then ROk h
+   else
+     set_active_m h dst (darg_of (d_active (dc h d))) >>= fun h => set_cell_m h dst (DVal (d_cell (dc h d))) >>= fun h =>
+     set_dar_m h dst (darg_of (d_dar (dc h d))) >>= fun h => set_dlang_m h dst (DVal (d_dlang (dc h d))) >>= fun h =>
+     set_px_m h dst (DVal (d_px (dc h d))))
+  >>= fun h1 =>
+  (fix go (l : list (prop * sval)) (h : heap) : res :=
+     match l with [] => ROk h | (p, v) :: t => put_initial h dst (PValid p) (Some v) >>= go t end)
+    (d_initials (dc h1 d)) h1.
 
 (* ------------------------------------------------------------------------------------------
    copy_to (ContentElement, Br, Text, Region versions)                                        *)
@@ -402,18 +490,23 @@ Definition copy_styles (s dst : nat) (h : heap) : res :=
   (fix go (l : list (prop * sval)) (h : heap) : res :=
      match l with [] => ROk h | (p, v) :: t => set_style_m h dst (PValid p) (Some v) >>= go t end)
     (n_styles (nd h s)) h.
-(* `for step in self.iter_animation_steps(): dest.add_animation_step(step)`; when dest is self the
-   list grows while it is iterated and the loop never ends *)
+(* `for step in self.iter_animation_steps(): dest.add_animation_step(step)`; if dest were self the
+   list would grow while it is iterated and the loop would never end (every copy_to returns early in
+   that case) *)
 Definition copy_anims (s dst : nat) (h : heap) : res :=
   if Nat.eqb s dst && negb (match n_anims (nd h s) with [] => true | _ => false end) then RErr h EFuel
   else ROk (updn h dst (fun n => set_anims (n_anims n ++ n_anims (nd h s)) n)).
 Definition copy_to (h : heap) (s dst : nat) : res :=
   match kind_of h s with
-  | KText => if kind_eqb (kind_of h dst) KText then ROk h else RErr h EAttr    (* dest.set_text *)
+  | KText => set_text_m h dst (Some (n_text (nd h s)))                          (* dest.set_text(self.get_text()) *)
   | KBr =>
+    if Nat.eqb s dst then ROk h
+    else
     set_id_m h dst (idarg_of (n_id (nd h s))) >>= fun h => set_lang_m h dst (n_lang (nd h s)) >>= fun h =>
     set_space_m h dst (n_space (nd h s)) >>= copy_styles s dst >>= copy_anims s dst
   | KRegion =>
+    if Nat.eqb s dst then ROk h
+    else
     set_lang_m h dst (n_lang (nd h s)) >>= fun h => set_space_m h dst (n_space (nd h s)) >>= fun h =>
     set_begin_m h dst (n_begin (nd h s)) >>= fun h => set_end_m h dst (n_end (nd h s)) >>=
     copy_styles s dst >>= copy_anims s dst
@@ -423,6 +516,67 @@ Definition copy_to (h : heap) (s dst : nat) : res :=
     set_begin_m h dst (n_begin (nd h s)) >>= fun h => set_end_m h dst (n_end (nd h s)) >>= fun h =>
     set_id_m h dst (idarg_of (n_id (nd h s))) >>= fun h => set_lang_m h dst (n_lang (nd h s)) >>= fun h =>
     set_space_m h dst (n_space (nd h s)) >>= copy_styles s dst >>= copy_anims s dst
+  end.
+
+(* ------------------------------------------------------------------------------------------
+   read-only methods: the value they return (or the exception)                                *)
+Inductive rval :=
+| RNone | RBool (b : bool) | RNat (n : nat) | RONat (o : option nat) | RList (l : list nat)
+| RSval (o : option sval) | RRaise (e : exn).
+Definition applicable (k : kind) : list prop :=
+  match k with
+  | KRegion => [PBackgroundColor; PDisparity; PDisplay; PDisplayAlign; PExtent; PLuminanceGain; POpacity; POrigin;
+                POverflow; PPadding; PPosition; PShowBackground; PVisibility; PWritingMode]
+  | KBody | KDiv => [PBackgroundColor; PDisplay; POpacity; PVisibility]
+  | KP => [PBackgroundColor; PDirection; PDisplay; PFillLineGap; PFontFamily; PFontSize; PFontStyle; PFontWeight;
+           PLineHeight; PLinePadding; PMultiRowAlign; POpacity; PRubyReserve; PShear; PTextAlign; PUnicodeBidi; PVisibility]
+  | KSpan | KRb | KRp => [PBackgroundColor; PColor; PDirection; PDisplay; PFontFamily; PFontSize; PFontStyle; PFontWeight;
+                          POpacity; PTextCombine; PTextDecoration; PTextEmphasis; PTextOutline; PTextShadow; PUnicodeBidi;
+                          PVisibility; PWrapOption]
+  | KRt => [PBackgroundColor; PColor; PDirection; PDisplay; PFontFamily; PFontSize; PFontStyle; PFontWeight; POpacity;
+            PRubyPosition; PTextCombine; PTextDecoration; PTextEmphasis; PTextOutline; PTextShadow; PUnicodeBidi;
+            PVisibility; PWrapOption]
+  | KBr | KText => []
+  | KRuby => [PBackgroundColor; PDirection; PDisplay; POpacity; PRubyAlign; PVisibility]
+  | KRbc => [PBackgroundColor; PDirection; PDisplay; POpacity; PVisibility]
+  | KRtc => [PBackgroundColor; PDirection; PDisplay; POpacity; PRubyPosition; PVisibility]
+  end.
+Definition of_list (o : option (list nat)) : rval := match o with Some l => RList l | None => RRaise EFuel end.
+Inductive query :=
+| QIter (s : nat)                         (* list(self) *)
+| QLen (s : nat)                          (* len(self) *)
+| QGetItem (s k : nat) (neg : bool)       (* self[k], or self[-(k+1)] when neg *)
+| QDfs (s : nat)                          (* list(self.dfs_iterator()) *)
+| QRoot (s : nat)
+| QHasStyle (s : nat) (p : pref)
+| QGetStyle (s : nat) (p : pref)
+| QApplicable (s : nat) (p : pref)
+| QIsAttached (s : nat)
+| QGetText (s : nat)
+| QHasRegion (d id : nat)
+| QGetRegion (d id : nat)
+| QHasInitial (d : nat) (p : pref)
+| QGetInitial (d : nat) (p : pref).
+Definition ask (h : heap) (q : query) : rval :=
+  match q with
+  | QIter s => of_list (kids h s)
+  | QLen s => match kids h s with Some l => RNat (length l) | None => RRaise EFuel end
+  | QGetItem s k neg =>
+    match kids h s with
+    | None => RRaise EFuel
+    | Some l => if k <? length l then RONat (Some (nth (if neg then length l - 1 - k else k) l 0)) else RRaise EIndex
+    end
+  | QDfs s => of_list (dfs (S (nnodes h)) h s)
+  | QRoot s => match root_walk (nnodes h) h s with Some r => RNat r | None => RRaise EFuel end
+  | QHasStyle s p => RBool (match p with PValid p => dict_has prop_eqb (n_styles (nd h s)) p | PInvalid => false end)
+  | QGetStyle s p => RSval (match p with PValid p => dict_get prop_eqb (n_styles (nd h s)) p | PInvalid => None end)
+  | QApplicable s p => RBool (match p with PValid p => existsb (prop_eqb p) (applicable (kind_of h s)) | PInvalid => false end)
+  | QIsAttached s => RBool (is_some (n_doc (nd h s)))
+  | QGetText s => match kind_of h s with KText => RNat (n_text (nd h s)) | _ => RRaise EAttr end
+  | QHasRegion d id => RBool (dict_has Nat.eqb (d_regions (dc h d)) id)
+  | QGetRegion d id => RONat (dict_get Nat.eqb (d_regions (dc h d)) id)
+  | QHasInitial d p => RBool (match p with PValid p => dict_has prop_eqb (d_initials (dc h d)) p | PInvalid => false end)
+  | QGetInitial d p => RSval (match p with PValid p => dict_get prop_eqb (d_initials (dc h d)) p | PInvalid => None end)
   end.
 
 (* ------------------------------------------------------------------------------------------
@@ -447,12 +601,28 @@ Inductive call :=
 | CSetEnd (s : nat) (v : bool)
 | CSetId (s : nat) (v : idarg)
 | CSetLang (s : nat) (v : bool)
-| CSetSpace (s : nat) (v : bool).
+| CSetSpace (s : nat) (v : bool)
+| CRemoveAnim (s : nat) (p : prop) (v : sval)
+| CRemoveInitial (d : nat) (p : pref)
+| CSetText (s : nat) (v : option nat)
+| CSetActive (d : nat) (v : darg)
+| CSetCell (d : nat) (v : darg)
+| CSetPx (d : nat) (v : darg)
+| CSetDar (d : nat) (v : darg)
+| CSetDocLang (d : nat) (v : darg)
+| CDocCopyTo (d dst : nat)
+| CQuery (q : query).
 
 Definition node_ok (h : heap) (i : nat) : bool := i <? nnodes h.
 Definition onode_ok (h : heap) (o : option nat) : bool := match o with None => true | Some i => node_ok h i end.
 Definition doc_ok (h : heap) (d : nat) : bool := d <? ndocs h.
 Definition odoc_ok (h : heap) (o : option nat) : bool := match o with None => true | Some i => doc_ok h i end.
+Definition query_ok (h : heap) (q : query) : bool :=
+  match q with
+  | QIter s | QLen s | QGetItem s _ _ | QDfs s | QRoot s | QHasStyle s _ | QGetStyle s _ | QApplicable s _
+  | QIsAttached s | QGetText s => node_ok h s
+  | QHasRegion d _ | QGetRegion d _ | QHasInitial d _ | QGetInitial d _ => doc_ok h d
+  end.
 (* the arguments of a call denote objects of the universe *)
 Definition call_ok (h : heap) (c : call) : bool :=
   match c with
@@ -465,10 +635,13 @@ Definition call_ok (h : heap) (c : call) : bool :=
   | CPutRegion d r => doc_ok h d && node_ok h r
   | CRemoveRegion d _ => doc_ok h d
   | CSetBody d b => doc_ok h d && onode_ok h b
-  | CSetStyle s _ _ | CAddAnim s _ _ => node_ok h s
-  | CPutInitial d _ _ => doc_ok h d
+  | CSetStyle s _ _ | CAddAnim s _ _ | CRemoveAnim s _ _ | CSetText s _ => node_ok h s
+  | CPutInitial d _ _ | CRemoveInitial d _ => doc_ok h d
   | CCopyTo s dst => node_ok h s && node_ok h dst
   | CSetBegin s _ | CSetEnd s _ | CSetId s _ | CSetLang s _ | CSetSpace s _ => node_ok h s
+  | CSetActive d _ | CSetCell d _ | CSetPx d _ | CSetDar d _ | CSetDocLang d _ => doc_ok h d
+  | CDocCopyTo d dst => doc_ok h d && doc_ok h dst
+  | CQuery q => query_ok h q
   end.
 
 Definition exec (h : heap) (c : call) : res :=
@@ -493,15 +666,39 @@ Definition exec (h : heap) (c : call) : res :=
   | CSetId s v => set_id_m h s v
   | CSetLang s v => set_lang_m h s v
   | CSetSpace s v => set_space_m h s v
+  | CRemoveAnim s p v => remove_anim_m h s p v
+  | CRemoveInitial d p => remove_initial h d p
+  | CSetText s v => set_text_m h s v
+  | CSetActive d v => set_active_m h d v
+  | CSetCell d v => set_cell_m h d v
+  | CSetPx d v => set_px_m h d v
+  | CSetDar d v => set_dar_m h d v
+  | CSetDocLang d v => set_dlang_m h d v
+  | CDocCopyTo d dst => doc_copy_to h d dst
+  | CQuery q => match ask h q with RRaise e => RErr h e | _ => ROk h end
   end.
+(* the value a call returns: None for every method except the read-only ones *)
+Definition result (h : heap) (c : call) : rval := match c with CQuery q => ask h q | _ => RNone end.
 
 Definition step (h : heap) (c : call) : heap * outcome :=
   if call_ok h c then let r := exec h c in (heap_of r, outcome_of r) else (h, ORaised EType).
 Definition run (h : heap) (cs : list call) : heap := fold_left (fun h c => fst (step h c)) cs h.
 
+(* the containers whose children are added as one ordered list (push_children validates the whole list and
+   undoes a partial push) *)
+Definition ordered_kind (k : kind) : bool := match k with KRuby | KRtc => true | _ => false end.
+
+(* "single-element operations": those that the property requires to be atomic when rejected
+   (everything but the methods that loop over several elements or values) *)
+Definition single_element (c : call) : bool :=
+  match c with
+  | CPushChildren _ _ | CRemoveChildren _ | CCopyTo _ _ | CDocCopyTo _ _ => false
+  | _ => true
+  end.
+
 (* the initial universe: freshly constructed, unlinked elements (kind, owner document, id) and
    empty documents *)
 Definition fresh (x : kind * option nat * option nat) : node :=
-  let '(k, d, i) := x in mkNode k d None None None None None None false false i false false [] [].
+  let '(k, d, i) := x in mkNode k d None None None None None None false false i false false [] [] [] 0.
 Definition init (elems : list (kind * option nat * option nat)) (ndoc : nat) : heap :=
   mkHeap (map fresh elems) (repeat ddoc ndoc).
